@@ -222,6 +222,9 @@ func (l *Gpos4_1) encode() []byte {
 			}
 		}
 	}
+	if baseArrayOffset > 0xFFFF {
+		panic("base array offset overflow")
+	}
 	res := make([]byte, 0, total)
 
 	res = append(res,
@@ -260,6 +263,9 @@ func (l *Gpos4_1) encode() []byte {
 			if rec.IsEmpty() {
 				res = append(res, 0, 0)
 				continue
+			}
+			if offs > 0xFFFF {
+				panic("anchor offset overflow")
 			}
 			res = append(res,
 				byte(offs>>8), byte(offs),
